@@ -154,14 +154,21 @@ Example C18_ex_one_line :
   Some [102;58;32;40;32;97;32;79;82;32;98;32;41;32;65;78;68;32;78;79;84;32;34;99;32;100;34;126;50]%N.
 Proof. vm_compute. reflexivity. Qed.
 (* several lines with max_len = 5, indent = 2, and the round trip holds *)
+Definition ex_multi : str :=
+  Eval vm_compute in match pretty (mkPcfg 2 5 false) ex_tree with Some p => p | None => [] end.
 Example C18_ex_multi_line :
-  exists p t', pretty (mkPcfg 2 5 false) ex_tree = Some p /\ In c_nl p /\
-               parse p = Some (Ok t') /\ item_eqb t' ex_tree = true.
-Proof. eexists. eexists. vm_compute. repeat split; auto 20. Qed.
-(* the hypothesis of C18_modulo_lexing holds for it *)
+  pretty (mkPcfg 2 5 false) ex_tree = Some ex_multi /\ mem_N c_nl ex_multi = true /\
+  match parse ex_multi with Some (Ok t') => item_eqb t' ex_tree | _ => false end = true.
+Proof. vm_compute. auto. Qed.
+(* the hypothesis of C18_modulo_lexing holds for it (inline operators, several lines) *)
+Definition ex_inline : str :=
+  Eval vm_compute in match pretty (mkPcfg 2 5 true) ex_tree with Some p => p | None => [] end.
 Example C18_ex_same_tokens :
-  exists p, pretty (mkPcfg 2 5 true) ex_tree = Some p /\ same_tokens p ex_query.
-Proof. eexists. split; [vm_compute; reflexivity|]. vm_compute. split; [reflexivity|split; auto]. Qed.
+  pretty (mkPcfg 2 5 true) ex_tree = Some ex_inline /\ same_tokens ex_inline ex_query.
+Proof.
+  split; [vm_compute; reflexivity|]. split; [vm_compute; reflexivity|].
+  split; intros _; vm_compute; reflexivity.
+Qed.
 (* the F11 witness violates the guard of C18_respacing_plain and the hypothesis of C18_modulo_lexing *)
 Example C18_witness_outside_guard : no_newline_in_chunks wit_tree = false.
 Proof. vm_compute. reflexivity. Qed.
